@@ -456,6 +456,8 @@ struct Live {
     sentinel_ctr: u64,
     forge_seq: u64,
     injected: u64,
+    /// DtlsState name of the target before the record under test was injected
+    state_before: &'static str,
 }
 
 impl Live {
@@ -512,6 +514,7 @@ async fn walk(certs: &Certs, target_is_client: bool, phase: Phase) -> Result<Liv
         sentinel_ctr: 0,
         forge_seq: 0,
         injected: 0,
+        state_before: "Handshaking",
     };
     let taps = [l.pair.c.tap.clone(), l.pair.s.tap.clone()];
     let tr: Vec<&Arc<Tap>> = taps.iter().collect();
@@ -933,11 +936,68 @@ async fn inject(l: &mut Live, datagram: &[u8], src: &str) -> Result<(), String> 
 }
 
 /// Wait until everything injected so far has been processed by the target and report what it did.
+/// Bounded settling. If no sentinel can be made to work within the budget but the target visibly left the
+/// state it was in (or delivered something, or its task ended), that observation is returned so that the edge is
+/// judged (an unauthentic record that did this is the divergence); only "nothing visible and no sentinel" is an
+/// error of the machinery.
 async fn settle(l: &mut Live) -> Result<Settled, String> {
+    let pre_state = l.state_before;
+    let r = match tokio::time::timeout(Duration::from_secs(12), settle_inner(l)).await {
+        Ok(r) => r,
+        Err(_) => Err("settling exceeded its 12 s budget".to_string()),
+    };
+    match r {
+        Ok(s) => Ok(s),
+        Err(e) => {
+            let state = l.tgt().state();
+            let (delivered, alive) = l.target().drain_app();
+            if state != pre_state || !delivered.is_empty() || !alive {
+                if std::env::var("VERIF_PROGRESS").is_ok() {
+                    let t = l.tgt().tap.clone();
+                    eprintln!("settle fallback: {e} (target {state}, peer {}) tap total={} from_peer={} held={} mode={:?} app23={} runner_done={}", l.peer().state(),
+                        t.total.load(Ordering::SeqCst), t.from_peer.load(Ordering::SeqCst), t.held.lock().len(), *t.mode.lock(),
+                        t.cap.lock().iter().filter(|c| c.data[0] == CT_APP).count(), l.tgt().runner.is_finished());
+                }
+                Ok(Settled { delivered, state, alive, how: "unsettled-but-changed" })
+            } else {
+                Err(e)
+            }
+        }
+    }
+}
+
+async fn settle_inner(l: &mut Live) -> Result<Settled, String> {
+    // the choice of sentinel follows the state the target is really in; if the target leaves Handshaking while a
+    // handshake-phase sentinel is being used (the injected record connected / closed it) the choice is made again
+    for _ in 0..3 {
+        if let Some(s) = settle_once(l).await? {
+            return Ok(s);
+        }
+    }
+    Err("the target kept changing state while settling".into())
+}
+
+async fn settle_once(l: &mut Live) -> Result<Option<Settled>, String> {
     let tgt_tap = l.tgt().tap.clone();
+    // a server pinned before Connected that an injected record has (unexpectedly) connected: its peer finishes
+    // on the server's final flight and can then emit application sentinels
+    if !l.target_is_client && l.phase != Phase::Connected && l.phase != Phase::Closed && l.tgt().state() != "Handshaking" {
+        let p = l.peer().dtls.clone();
+        let taps = [l.pair.c.tap.clone()];
+        for _ in 0..5 {
+            if wait_until(&[&taps[0]], Duration::from_millis(600), || state_name(&p.get_state()) != "Handshaking").await {
+                break;
+            }
+            // the client's own retransmissions are still held back by the server-side tap: a duplicate
+            // ClientHello makes the (finished) server resend its final flight
+            if let Some(ch) = l.client_hello.clone() {
+                let _ = l.pair.c.sock.send_to(&ch, l.pair.s.addr).await;
+            }
+        }
+    }
+    let tstate = l.tgt().state();
     let can_app_sentinel = l.peer().keys().is_some()
-        && (l.phase != Phase::NoKeys)
-        && !(l.phase == Phase::KeysPending && !l.target_is_client);
+        && (tstate != "Handshaking" || (l.phase == Phase::KeysPending && l.target_is_client));
     if can_app_sentinel {
         l.sentinel_ctr += 1;
         let mut s = b"SENTINEL".to_vec();
@@ -947,15 +1007,15 @@ async fn settle(l: &mut Live) -> Result<Settled, String> {
         let mut delivered = Vec::new();
         let t0 = Instant::now();
         loop {
-            let left = SETTLE_LIMIT.checked_sub(t0.elapsed()).ok_or("sentinel never arrived")?;
+            let left = Duration::from_secs(10).checked_sub(t0.elapsed()).ok_or("sentinel never arrived")?;
             match tokio::time::timeout(left, l.target().app_rx.recv()).await {
                 Err(_) => return Err("sentinel never arrived (target alive)".into()),
                 Ok(None) => {
                     // the target's DTLS task ended: nothing more can be processed or delivered
-                    return Ok(Settled { delivered, state: l.tgt().state(), alive: false, how: "task-ended" });
+                    return Ok(Some(Settled { delivered, state: l.tgt().state(), alive: false, how: "task-ended" }));
                 }
                 Ok(Some(b)) if b == s => {
-                    return Ok(Settled { delivered, state: l.tgt().state(), alive: true, how: "app-sentinel" });
+                    return Ok(Some(Settled { delivered, state: l.tgt().state(), alive: true, how: "app-sentinel" }));
                 }
                 Ok(Some(b)) => delivered.push(b),
             }
@@ -975,16 +1035,21 @@ async fn settle(l: &mut Live) -> Result<Settled, String> {
             }
             let want = c0 + 3 * l.flight;
             let runner_done = || l.pair.s.runner.is_finished();
+            let sd = l.pair.s.dtls.clone();
+            let left_hs = || state_name(&sd.get_state()) != "Handshaking";
             // a round that takes longer than 1.8 s is not accepted anyway
-            let ok = wait_until(&[&ctap, &tgt_tap], Duration::from_secs(2), || ctap.from_peer.load(Ordering::SeqCst) >= want || runner_done()).await;
+            let ok = wait_until(&[&ctap, &tgt_tap], Duration::from_secs(2), || ctap.from_peer.load(Ordering::SeqCst) >= want || runner_done() || left_hs()).await;
+            if left_hs() && !runner_done() {
+                return Ok(None); // no longer in a handshake phase: choose the sentinel again
+            }
             if runner_done() {
                 // let the task's channel close become visible
                 let (d, _) = l.target().drain_app();
-                return Ok(Settled { delivered: d, state: l.tgt().state(), alive: false, how: "task-ended" });
+                return Ok(Some(Settled { delivered: d, state: l.tgt().state(), alive: false, how: "task-ended" }));
             }
             if ok && t0.elapsed() < Duration::from_millis(1800) {
                 let (d, alive) = l.target().drain_app();
-                return Ok(Settled { delivered: d, state: l.tgt().state(), alive, how: "clienthello-sentinel" });
+                return Ok(Some(Settled { delivered: d, state: l.tgt().state(), alive, how: "clienthello-sentinel" }));
             }
         }
         return Err("server never answered the duplicate ClientHello sentinel".into());
@@ -1030,6 +1095,7 @@ async fn exec_record(l: &mut Live, act: &Value, certs: &Certs, rng: &mut Rng) ->
     let phase = l.phase;
     let target_is_client = l.target_is_client;
     let pre_state = l.tgt().state();
+    l.state_before = pre_state;
     let is_release = act["cls"] == "e1-auth" && act["ct"] == "Handshake" && phase == Phase::KeysPending;
     ensure_base(l, act).await?;
     let built = if is_release {
@@ -1217,6 +1283,10 @@ async fn run_inject(edges_path: &str, out_path: &str) {
     let mut observed: HashMap<String, u64> = HashMap::new();
     let progress = std::env::var("VERIF_PROGRESS").is_ok();
     let t_start = Instant::now();
+    // watchdog over the whole replay: what is not executed inside the budget is reported as not executed
+    // (never a verdict); divergences found so far stand
+    let budget = Duration::from_secs(std::env::var("VERIF_INJECT_BUDGET_S").ok().and_then(|s| s.parse().ok()).unwrap_or(900));
+    let mut n_budget = 0u64;
     for (gi, (_, idxs)) in groups.into_iter().enumerate() {
         if progress {
             let e0 = edges.get(idxs[0]);
@@ -1231,6 +1301,7 @@ async fn run_inject(edges_path: &str, out_path: &str) {
         let phase = phase_of(&phase_s);
         let mut live: Option<Live> = None;
         let mut estab_failures = 0;
+        let mut consecutive_tool = 0;
         let start_key = (role.clone(), pre.first().and_then(|s| s["to"].as_str()).unwrap_or("").to_string());
         let mut group_dead: Option<Value> = broken_starts
             .get(&start_key)
@@ -1239,6 +1310,14 @@ async fn run_inject(edges_path: &str, out_path: &str) {
             let e = &edges.get(i);
             let act = &e["act"];
             n_edges += 1;
+            if t_start.elapsed() > budget {
+                n_budget += 1;
+                if n_budget == 1 {
+                    n_tool += 1;
+                    out.push(&json!({"type": "tool", "edge": i, "error": format!("replay budget of {} s exhausted; remaining edges not executed", budget.as_secs())}));
+                }
+                continue;
+            }
             if let Some(why) = &group_dead {
                 let mut w = why.clone();
                 w["edge"] = json!(i);
@@ -1284,14 +1363,25 @@ async fn run_inject(edges_path: &str, out_path: &str) {
                 }
                 let l = live.as_mut().unwrap();
                 let acc = l.injected;
-                let o = match exec_record(l, act, &certs, &mut rng).await {
+                // per-edge watchdog: nothing in one edge may take longer than this
+                let r = match tokio::time::timeout(Duration::from_secs(45), exec_record(l, act, &certs, &mut rng)).await {
+                    Ok(r) => r,
+                    Err(_) => Err("edge exceeded its 45 s watchdog".to_string()),
+                };
+                let o = match r {
                     Ok(o) => o,
                     Err(err) => {
                         live = None;
                         if err.starts_with("BUILD") {
                             break json!({"type": "tool", "edge": i, "error": err});
                         }
-                        if attempt < 3 {
+                        consecutive_tool += 1;
+                        if consecutive_tool >= 4 {
+                            // this group keeps failing to execute: give it up instead of burning the budget
+                            group_dead = Some(json!({"type": "tool", "error": format!("group abandoned after repeated failures: {err}"), "role": role, "phase": phase_s}));
+                            break json!({"type": "tool", "edge": i, "error": err});
+                        }
+                        if attempt < 2 {
                             continue;
                         }
                         break json!({"type": "tool", "edge": i, "error": err});
@@ -1307,6 +1397,7 @@ async fn run_inject(edges_path: &str, out_path: &str) {
                     break json!({"type": "tool", "edge": i, "error": "pair in a handshake phase kept getting too old (machine overloaded?)"});
                 }
                 max_acc = max_acc.max(acc);
+                consecutive_tool = 0;
                 let s = &o.settled;
                 // classify what was delivered
                 let (mut n_unauth, mut n_auth) = (0u64, 0u64);
@@ -1366,7 +1457,7 @@ async fn run_inject(edges_path: &str, out_path: &str) {
     let mut obs: Vec<(String, u64)> = observed.into_iter().collect();
     obs.sort();
     out.push(&json!({"type": "summary", "edges": n_edges, "divergences": n_div, "pairs": n_pairs, "tool_errors": n_tool,
-        "unrealised": n_unreal, "max_records_before_probe": max_acc,
+        "unrealised": n_unreal, "not_executed_budget": n_budget, "max_records_before_probe": max_acc,
         "observed": obs.into_iter().map(|(k, v)| json!([k, v])).collect::<Vec<_>>() }));
     out.finish();
 }
